@@ -285,7 +285,7 @@ QUICK = {
            + ['c10_uci_accept_semi_w', 'c10_uci_accept_legal_b', 'c10_uci_accept_make_w', 'c10_uci_parse_exact'],
     'C11': ['c11_validate_exact_w', 'c11_validate_exact_b'],
     'C12': ['c12_coord_parse', 'c12_coord_roundtrip', 'c12_color_parse', 'c12_cell_parse', 'c12_castling_parse', 'c12_castling_roundtrip',
-            'c12_san_parse_total_5', 'c10_uci_parse_exact', 'c12_fen_board_end_5'],
+            'c12_san_parse_total_5', 'c10_uci_parse_exact'],
     'C13': ['c13_chain_step_s0_p0_castling', 'c13_chain_push_pop_s0_p0_castling', 'c13_chain_push_pop_s1_p0_ep', 'c13_chain_step_s0_p2_other',
             'c13_chain_step_s5_p4_other', 'c13_chain_eq_s0_pawn'],
     'C14': ['c14_outcome_filter_table', 'c14_chain_outcome_precedence', 'c07_outcome_classification_w', 'c07_outcome_lone_king_b', 'c13_chain_step_s5_p4_other', 'c13_chain_step_s5_p4_knight_rep',
@@ -323,7 +323,7 @@ THOROUGH = {
             'c12_san_parse_total_5', 'c12_san_parse_total_7'],
     'C10': ['c10_*'],
     'C11': ['c11_*'],
-    'C12': ['c12_*', 'c10_uci_parse_exact', 'c10_uci_text_roundtrip'],
+    'C12': ['c12_coord_*', 'c12_color_parse', 'c12_cell_parse', 'c12_castling_*', 'c12_san_parse_total_*', 'c10_uci_parse_exact', 'c10_uci_text_roundtrip'],
     'C13': ['c13_chain_step_*', 'c13_chain_push_pop_*', 'c13_chain_eq_*'],
     'C14': ['c14_*', 'c07_outcome_classification_?', 'c07_outcome_lone_king_?', 'c13_chain_step_s5_*', 'c13_chain_step_s3_p0_*', 'c13_chain_step_s2_p0_rook', 'c13_chain_step_s4_p0_king'],
     'C15': ['c15_*'],
